@@ -5,3 +5,20 @@ Theorem C07_pin_aliases :
   lexer_ascii_aliases = pinned_lexer_ascii_aliases /\ lexer_token_patterns = pinned_lexer_token_patterns /\
   lexer_wrong_case = pinned_lexer_wrong_case.
 Proof. exact (conj pin_lexer_ascii_aliases (conj pin_lexer_token_patterns pin_lexer_wrong_case)). Qed.
+
+From OV Require Import Lex.Lexer Syn.Ast Syn.Parser Rt.TokRound.
+(* CANONICAL INPUT IS SILENT (parser half, every depth): reading the token layout of a core document adds no
+   rewrite receipt -- every record the parser appends is advisory (5 duplicate_key or 9 pattern_autoquote, which
+   report on the content and rewrite nothing); the records present before the call are kept unchanged. *)
+Theorem C07_core_canonical_silent :
+  forall numcanon holo_ok strict sp alpha d,
+    core_doc d = true -> nums_ok_l numcanon (dsections d) ->
+    forall st0 ts tail, tail <> [] -> Forall2 tmatch ts (doc_sh d) -> ptoks st0 = ts ++ tail ->
+    exists st' l, parse_document numcanon holo_ok strict sp alpha st0 = POk d st' /\
+                  pwarns st' = l ++ pwarns st0 /\ Forall (fun w => wsub w = 5%N \/ wsub w = 9%N) l.
+Proof.
+  exact (fun n h s sp a d Hc Hn st0 ts tail Ht Hts Hst =>
+           match parse_core_doc n h s sp a d Hc Hn st0 ts tail Ht Hts Hst with
+           | ex_intro _ st' (conj Hp (ex_intro _ l (conj Hw Hf))) => ex_intro _ st' (ex_intro _ l (conj Hp (conj Hw Hf)))
+           end).
+Qed.
